@@ -292,6 +292,14 @@ fn generate(rng: &mut Rng, tier: &str, w: &mut CaseWriter) {
         c17_layout::gen_csir(rng, w);
         c17_layout::gen_tbir(rng, w);
     }
+    // fai / crai text layouts: records through the real writer and reader, and raw texts (with
+    // anomalies) through the real reader; compared with NV.Index.TextIndex
+    for _ in 0..n {
+        c17_layout::gen_faiw(rng, w);
+        c17_layout::gen_fair(rng, w);
+        c17_layout::gen_craiw(rng, w);
+        c17_layout::gen_crair(rng, w);
+    }
 }
 
 fn gen_u64(rng: &mut Rng) -> u64 {
@@ -920,6 +928,10 @@ fn run(c: &Case) -> Obs {
         "csir" => c17_layout::run_csir(c),
         "tbiw" => c17_layout::run_tbiw(c),
         "tbir" => c17_layout::run_tbir(c),
+        "faiw" => c17_layout::run_faiw(c),
+        "fair" => c17_layout::run_fair(c),
+        "craiw" => c17_layout::run_craiw(c),
+        "crair" => c17_layout::run_crair(c),
         k => Obs::fail("-", "harness-unknown-kind", k),
     }
 }
